@@ -4,7 +4,8 @@ usage: run_harmless.py        (scratch worktrees under /tmp, removed afterwards;
 import json, os, shutil, subprocess, sys, tempfile
 
 ROOT = os.path.dirname(os.path.dirname(os.path.abspath(__file__)))
-CASES = {"H1": "C01", "H2": "C04", "H3": "C04", "H4": "C17", "H5": "C20"}
+CASES = {"H1": "C01", "H2": "C04", "H3": "C04", "H4": "C17", "H5": "C20",
+         "H6": "C05", "H7": "C12", "H8": "C17", "H9": "C19", "H10": "C10"}
 
 
 def sh(cmd, **kw):
@@ -13,7 +14,7 @@ def sh(cmd, **kw):
 
 def main():
     bad = 0
-    for h, prop in sorted(CASES.items()):
+    for h, prop in sorted(CASES.items(), key=lambda kv: int(kv[0][1:])):
         wt = tempfile.mkdtemp(prefix="harm-", dir="/tmp")
         os.rmdir(wt)
         assert sh("git -C /repo worktree add -q --detach %s HEAD" % wt).returncode == 0
